@@ -52,7 +52,7 @@ def case_strategy(tier: str):
         'tree': st.lists(node_strategy(tier), max_size=5),
         'opts': options_strategy(),
         'opts2': options_strategy(),
-        'delivery': st.sampled_from(['str', 'chunks', 'file', 'lines', 'chars', 'special']),
+        'delivery': st.sampled_from(['str', 'chunks', 'file', 'lines', 'chars', 'special', 'file_seeked', 'file_after_readline', 'fd_file', 'path_file']),
         'cuts': st.lists(st.integers(0, 1 << 16), max_size=8),
     })
 
@@ -112,6 +112,21 @@ def walk(nodes, fn):
             fn(value, False, False)
 
 
+_CLOSE_LATER: list = []
+_UNLINK_LATER: list = []
+
+
+def _cleanup_files():
+    import os
+    while _CLOSE_LATER:
+        _CLOSE_LATER.pop().close()
+    while _UNLINK_LATER:
+        try:
+            os.unlink(_UNLINK_LATER.pop())
+        except OSError:
+            pass
+
+
 def deliver(text: str, mode: str, cuts):
     if mode == 'str':
         return text
@@ -119,6 +134,29 @@ def deliver(text: str, mode: str, cuts):
         return io.StringIO(text)
     if mode == 'lines':
         return text.splitlines(keepends=True)
+    if mode == 'file_seeked':               # a StringIO holding something else first, positioned at the document
+        head = '"Other" "doc"\n"Blk"\n{\n"x" "y"\n}\n'
+        buf = io.StringIO(head + text)
+        buf.seek(len(head))
+        return buf
+    if mode == 'file_after_readline':       # a header line was consumed with readline() before parsing
+        buf = io.StringIO('// some header that is not keyvalues {\n' + text)
+        buf.readline()
+        return buf
+    if mode in ('fd_file', 'path_file'):    # real file objects (closed by the caller through _CLOSE_LATER)
+        import os
+        import tempfile
+        if mode == 'fd_file':               # descriptor-backed: .name is an int
+            f = tempfile.TemporaryFile(mode='w+', encoding='utf8', newline='')
+        else:
+            fd, path = tempfile.mkstemp(prefix='verif_c01_', suffix='.txt')
+            os.close(fd)
+            f = open(path, 'w+', encoding='utf8', newline='')
+            _UNLINK_LATER.append(path)
+        f.write(text)
+        f.seek(0)
+        _CLOSE_LATER.append(f)
+        return f
     if mode == 'chars':
         return list(text)
     if mode == 'special':     # a chunk boundary in front of every syntax-relevant character
@@ -135,6 +173,13 @@ def deliver(text: str, mode: str, cuts):
 
 
 def execute(desc, ctx):
+    try:
+        _execute(desc, ctx)
+    finally:
+        _cleanup_files()
+
+
+def _execute(desc, ctx):
     from srctools.keyvalues import Keyvalues
     tree = desc['tree']
     root = Keyvalues.root(*[build(n) for n in tree])
@@ -280,7 +325,8 @@ def execute_history(desc, ctx):
 SUBCHECKS = [
     Sub('roundtrip', execute, strategy=case_strategy, quick=4000, thorough=120000, floor=50,
         must_hit=('block', 'esc', 'esc_block_name', 'empty_block', 'unicode',
-                  'delivery:chunks', 'delivery:file', 'delivery:lines', 'delivery:chars', 'delivery:special')),
+                  'delivery:chunks', 'delivery:file', 'delivery:lines', 'delivery:chars', 'delivery:special',
+                  'delivery:file_seeked', 'delivery:file_after_readline', 'delivery:fd_file', 'delivery:path_file')),
     Sub('history', execute_history, strategy=history_strategy, quick=1200, thorough=40000, floor=50,
         must_hit=('mut:edit_name', 'mut:rename', 'mut:set_value', 'pre_fail:single_block', 'pre_fail:pushback_abandoned', 'pre_fail:deep', 'pre_fail:nonstr', 'pre_fail:bad_file', 'pre_fail:raised')),
 ]
